@@ -162,6 +162,12 @@ enum Sib {
     /// APPLICATION-ENTRY (LIN schedule table entry) with INTRODUCTION, DELAY, POSITION-IN-TABLE: DELAY has one position in
     /// version 4.0.1 and another one, after INTRODUCTION, in all later versions
     AppEntry(&'static str),
+    /// ECUC-TEXTUAL-PARAM-VALUE (no name) with DEFINITION-REF /d/p and this VALUE: siblings differ in nothing but STRING
+    /// character data (integer-like texts - decimal, 0x, 0b, leading-0 octal - mixed with texts that are no integers)
+    TextVal(&'static str),
+    /// AR-PACKAGE of a LENIENTLY loaded document: the short name is not ASCII (it may end in a multi-byte character,
+    /// optionally followed by digits) - the editing API and strict loading refuse such names
+    Lenient(&'static str),
 }
 
 /// identifies the sibling up to the stored order of its reorderable content (the multiset a group is made of)
@@ -336,6 +342,14 @@ fn build_sib(b: &mut B, c: usize, k: usize, s: &Sib) {
             let p = b.sub(e, "POSITION-IN-TABLE");
             b.text(p, position);
         }
+        Sib::TextVal(value) => {
+            let e = b.sub(c, "ECUC-TEXTUAL-PARAM-VALUE");
+            let dr = b.sub(e, "DEFINITION-REF");
+            b.text(dr, "/d/p");
+            let v = b.sub(e, "VALUE");
+            b.text(v, value);
+        }
+        Sib::Lenient(_) => panic!("lenient siblings are loaded, not built"),
         Sib::Inline(kind) => {
             let e = b.sub(c, kind);
             b.op(Op::InsertCItem(e, b"t".to_vec(), 0));
@@ -363,7 +377,7 @@ fn build_container(b: &mut B, fam: &str) -> usize {
             let o = b.named(ops, "CLIENT-SERVER-OPERATION", "op");
             b.sub(o, "ARGUMENTS")
         }
-        "index" | "param" | "paramidx" | "nested" => {
+        "index" | "param" | "paramidx" | "nested" | "strval" => {
             let el = b.elements();
             let m = b.named(el, "ECUC-MODULE-CONFIGURATION-VALUES", "cfg");
             let cs = b.sub(m, "CONTAINERS");
@@ -456,6 +470,21 @@ fn families(tier: &str) -> Vec<(&'static str, Vec<Vec<Sib>>)> {
         vec![AnnotP(vec!["c", "a"]), AnnotP(vec!["a", "b"]), AnnotP(vec!["a"])],
         vec![Annot(vec!["b", "a"]), AnnotP(vec!["b", "a"]), Annot(vec!["a", "a"])],
     ]));
+    // siblings that tie on every earlier stage and differ only in string values: CharacterData::cmp of two strings is textual
+    // whatever they look like (a numeric order for integer-like pairs only would be cyclic: 2 < 10 < 1b < 2)
+    v.push(("strval", vec![
+        vec![TextVal("2"), TextVal("10"), TextVal("1b")],
+        vec![TextVal("2"), TextVal("10"), TextVal("1e1")],
+        vec![TextVal("9"), TextVal("0x10"), TextVal("0y")],
+        vec![TextVal("7"), TextVal("010"), TextVal("01a")],
+        vec![TextVal("3"), TextVal("0b100"), TextVal("0b2")],
+        vec![TextVal("2"), TextVal("10"), TextVal("1b"), TextVal("0x3")],
+    ]));
+    // the same in a string attribute value (Attribute::cmp uses CharacterData::cmp)
+    v.push(("paramidx", vec![
+        vec![ParamIdx(Some("7"), Some("/d/a"), Some("2")), ParamIdx(Some("7"), Some("/d/a"), Some("10")), ParamIdx(Some("7"), Some("/d/a"), Some("1b"))],
+        vec![ParamIdx(None, None, Some("9")), ParamIdx(None, None, Some("0x10")), ParamIdx(None, None, Some("0y"))],
+    ]));
     v.push(("mixed", vec![vec![Inline("TT"), Inline("E"), Inline("SUB")]]));
     v.push(("verorder", vec![vec![AppEntry("2"), AppEntry("1")]]));
     if thorough {
@@ -535,6 +564,46 @@ pub fn gen_main(args: &[String]) {
                 k += 1;
                 *stats.entry(fam.to_string()).or_insert(0) += 1;
             }
+        }
+    }
+    // ---- named siblings of a leniently loaded document: names the editing API refuses (not ASCII; the last character before
+    // the numeric suffix, or the last character at all, is a multi-byte one).  The script is new_model + load(strict = false).
+    let lenient_sets: Vec<Vec<&'static str>> = vec![
+        vec!["Ma\u{df}2", "Ma\u{df}10", "T\u{fc}r"],
+        vec!["Ma\u{df}2", "Ma\u{df}10", "Ma\u{df}", "Gr\u{f6}\u{df}e1"],
+        vec!["T\u{fc}r", "T\u{fc}r2", "T\u{fc}", "Ma\u{df}10"],
+        vec!["\u{20ac}9", "\u{20ac}10", "\u{20ac}"],
+    ];
+    for set in &lenient_sets {
+        let mut sorted: Vec<&str> = set.clone();
+        sorted.sort();
+        let setid = sorted.join("+");
+        for perm in permutations(set) {
+            // the text: what the library itself writes for packages q0, q1, .. with the names substituted
+            let tm = AutosarModel::new();
+            let tf = tm.create_file("t.arxml", AutosarVersion::LATEST).unwrap();
+            let pk = tm.root_element().create_sub_element(ElementName::ArPackages).unwrap();
+            for i in 0..perm.len() {
+                pk.create_named_sub_element(ElementName::ArPackage, &format!("q{}q", i)).unwrap();
+            }
+            let mut t = tf.serialize().unwrap();
+            for (i, n) in perm.iter().enumerate() {
+                t = t.replace(&format!(">q{}q<", i), &format!(">{}<", n));
+            }
+            let mut b = B { ex: Exec::new(&names), lines: vec![], fails: 0 };
+            b.op(Op::NewModel);
+            let line = Op::Load(0, t.into_bytes(), b"f0.arxml".to_vec(), false);
+            b.lines.push(line.line());
+            let r = b.ex.apply(&line);
+            if !r.starts_with("R OK") {
+                b.fails += 1;
+                eprintln!("lenient load: {}", r);
+            }
+            let c = b.kid(0, "AR-PACKAGES");
+            op_fail += b.fails as u64;
+            b.finish(k, "lenient", &setid, c, &mut text);
+            k += 1;
+            *stats.entry("lenient".into()).or_insert(0) += 1;
         }
     }
     std::fs::write(out, text).unwrap();
